@@ -158,8 +158,46 @@ class Gen:
     def statement(self):
         rng = self.rng
         depth = rng.choice([0, 1, 1, 2, 2, 3])
-        k = rng.randrange(16)
+        k = rng.randrange(24)
         cols = ['a', 'b', 'c', 'd']
+        if k == 16:  # three-way join, placeholders in ON conditions and in a joined sub-select
+            third = rng.choice(['(select id, k from int.t3 where %s) as t3' % self.cond(['k', 'id'], min(depth, 1)), 'int.t3 as t3'])
+            ch = [('m', 'select '), ('m', self.expr(['t1.a', 't2.b'], min(depth, 1))), ('m', ' from int.t1 as t1 join int2.t2 as t2 on t1.id = t2.id'),
+                  ('o', ' and t2.x > ' + self.atom(['t1.a'])), ('m', ' join %s on t3.id = t2.id' % third), ('o', ' and t3.k < ' + self.atom(['t1.c'])),
+                  ('o', ' where ' + self.cond(['t1.a', 't2.b'], min(depth, 1)))]
+            return ch, 'two'
+        if k == 17:  # EXISTS / IN sub-selects in WHERE
+            ch = [('m', 'select * from int.t1 where '), ('o', 'a = %s and ' % self.atom(cols)),
+                  ('m', rng.choice(['exists (select 1 from int2.t2 where %s)', 'b in (select b from int2.t2 where %s)', 'not exists (select 1 from int2.t2 where %s)'])
+                   % self.cond(cols, min(depth, 1))), ('o', ' and d < ' + self.atom(cols))]
+            return ch, 'two'
+        if k == 18:  # two levels of nesting in FROM
+            ch = [('m', 'select '), ('m', self.expr(['x', 'y'], min(depth, 1))), ('m', ' from (select * from (select * from int.t1 where '),
+                  ('m', self.cond(cols, min(depth, 1))), ('m', ') as s1 where '), ('m', self.cond(cols, 0)), ('m', ') as s2'),
+                  ('o', ' where ' + self.cond(['x', 'y'], 0))]
+            return ch, rng.choice(['one', 'two'])
+        if k == 19:  # two CTEs joined
+            ch = [('m', 'with c1 as (select * from int.t1 where '), ('m', self.cond(cols, min(depth, 1))), ('m', '), c2 as (select * from int2.t2 where '),
+                  ('m', self.cond(cols, min(depth, 1))), ('m', ') select '), ('m', self.expr(['c1.a', 'c2.b'], 0)),
+                  ('m', ' from c1 join c2 on c1.id = c2.id'), ('o', ' where c1.a > ' + self.atom(['c2.b']))]
+            return ch, 'two'
+        if k == 20:  # union of three
+            ch = [('m', 'select a from int.t1 where '), ('m', self.cond(cols, 0)), ('m', ' union all select a from int2.t2 where '),
+                  ('m', self.cond(cols, 0)), ('o', ' union select a from int.t3 where ' + self.cond(cols, 0))]
+            return ch, 'two'
+        if k == 21:  # scalar sub-select in the select list
+            ch = [('m', 'select a, (select max(b) from int2.t2 where '), ('m', self.cond(cols, 0)), ('m', ') as m'), ('o', ', ' + self.atom(cols)),
+                  ('m', ' from int.t1'), ('o', ' where ' + self.cond(cols, min(depth, 1)))]
+            return ch, 'two'
+        if k == 22:  # insert ... select with a join
+            ch = [('m', 'insert into int.t1 (a, b) select t2.a, '), ('m', self.atom(['t3.b'])), ('m', ' from int2.t2 as t2 join int.t3 as t3 on t2.id = t3.id'),
+                  ('o', ' and t3.k = ' + self.atom(['t2.c'])), ('m', ' where '), ('m', self.cond(['t2.a', 't3.b'], min(depth, 1)))]
+            return ch, 'two'
+        if k == 23:  # table joined with a model, placeholders on both sides of the split
+            ch = [('m', 'select t.a, m.p from int.t1 as t join mindsdb.pred as m where t.x > '), ('m', rng.choice([MARK, '1'])),
+                  ('o', ' and t.b in (%s, %s)' % (self.atom(['t.a']), self.atom(['t.a']))), ('o', ' and m.k = ' + rng.choice([MARK, '3'])),
+                  ('o', ' and t.c between %s and %s' % (self.atom(['t.a']), self.atom(['t.a'])))]
+            return ch, 'model'
         if k <= 2:
             return self.select_one(depth), rng.choice(['one', 'two', 'model'])
         if k == 3:   # join of two integrations
@@ -224,13 +262,23 @@ def text_of(chunks):
 
 
 def value_for(k, rng_tag):
-    """Unique, attributable value for placeholder k (python value, SQL literal)."""
-    m = (k + rng_tag) % 3
-    if m == 0:
+    """Unique, attributable value for placeholder k: (python value, SQL literal spelling).  The kinds a
+    client library really sends: integers (also negative), strings (also one that contains a `?`, which
+    must not be taken for a placeholder again), floats, booleans, NULL."""
+    m = (k * 7 + rng_tag) % 8
+    if m in (0, 5):
         return 1000 + k, str(1000 + k)
     if m == 1:
         return 'v%d' % k, "'v%d'" % k
-    return k + 0.5, repr(k + 0.5)
+    if m == 2:
+        return k + 0.5, repr(k + 0.5)
+    if m == 3:
+        return -(2000 + k), str(-(2000 + k))
+    if m == 4:
+        return 'is it %d ?' % k, "'is it %d ?'" % k
+    if m == 6:
+        return (k % 2 == 0), ('true' if k % 2 == 0 else 'false')
+    return None, 'null'
 
 
 def subst(marked, literals):
@@ -292,7 +340,7 @@ def gen_scenario(seed):
                 ch, cat = g.statement()
                 if text_of(ch).count(MARK) <= 6:
                     break
-            stmts.append({'chunks': ch, 'cat': cat, 'tag': rng.randrange(3)})
+            stmts.append({'chunks': ch, 'cat': cat, 'tag': rng.randrange(8)})
         # one planner (one catalog) per session: use the largest catalog any of its statements needs
         rank = {'one': 0, 'two': 1, 'model': 2}
         top = max((st['cat'] for st in stmts), key=lambda c: rank[c])
